@@ -222,7 +222,8 @@ def full_stack(ctx, thorough):
     which the read loop completes the disconnect before the task whose flush was held up is told of the loss - an order of events the
     block-by-block recordings of the socket harness, which need their own task class, do not produce): one control call whose write is
     held up on a congested link, then the link is lost.  An accumulating command (no retries) is on the wire at most once; any command at
-    most 1 + retries times, each time on another connection."""
+    most 1 + retries times, each time on another connection; a command with retries left whose held-up write failed with the link is
+    sent again on the next connection."""
     import fullstack
     ctx.coverage["rule"] += ("; full stack (real API object, real socket, in-memory transport, default and eager task factory): a control call held up on a "
                              "congested link, the link lost 1..4 ticks later (reset / timed out / end of stream), reconnection latency 0..17 ticks - the "
@@ -248,6 +249,10 @@ def full_stack(ctx, thorough):
                                 why = "one %s call was put on the wire %d times (its policy allows %d attempt(s))" % (call, len(seen), limit)
                             elif len(made) == 1 and len(set(c for _, c in seen)) < len(seen):
                                 why = "one %s call was written more than once on the same connection" % call
+                            elif len(made) == 1 and limit > 1 and what != "eof" and len(seen) < 2:
+                                # (a link lost with an error makes the held-up write fail; one lost by an orderly end of stream lets it return normally)
+                                why = ("the write of one %s call failed with the link (retries left, 30 s lifetime, reconnected at once) and the command was not "
+                                       "sent again on the next connection" % call)
                             if why and worst is None:
                                 worst = (gen, sc, why, seen)
     if worst:
